@@ -472,6 +472,8 @@ class Engine:
             self.chk = chk
             for c in cases:
                 r = chk.get(c.id, {})
+                if self.pid == "C06" and r.get("C06scope") is False:
+                    self.corr["beyond_f64_resolution_skipped"] = self.corr.get("beyond_f64_resolution_skipped", 0) + 1
                 for k in keys:
                     if k in r and not r[k]:
                         self.fail(c, "check_%s = false on the implementation's output" % k, dict(key=k))
@@ -984,11 +986,17 @@ def extra_C17(eng, cases):
     for c in mux:
         b = blocks.get(c.id, [])
         main = sink_of(b)
+        ref = None
         for l in b:
             if l.startswith("alt "):
                 w = l.split(" ")
                 if unhx(w[-1]) != main:
                     eng.fail(c, "sink type %s receives different bytes" % w[1])
+                res = " ".join(w[2:-1])
+                if ref is None:
+                    ref = res
+                elif res != ref:
+                    eng.fail(c, "sink type %s gives different call results / statistics" % w[1])
     # 3. threads: 1..16 concurrently running interpreters over the same input
     for n in ([4, 16] if eng.tier == "quick" else [1, 2, 3, 4, 8, 16]):
         env = dict(os.environ, HARNESS_MODE="threads:%d" % n)
@@ -1787,3 +1795,7 @@ PROPS["C06"]["axiom_allow_for"] = {
     "C06_history_accounts_for_everything": REALS_AXIOMS,
     "C06_history_accounts_for_everything_any_sink": REALS_AXIOMS,
 }
+for _p in ("C03", "C04", "C16", "C12", "C05"):
+    PROPS[_p]["fams"] = PROPS[_p]["fams"] + [("fam_cts_bounds", 60, 2000)]
+for _p in ("C12", "C06", "C04", "C16", "C05"):
+    PROPS[_p]["fams"] = PROPS[_p]["fams"] + [("fam_extreme_ts", 80, 3000)]
